@@ -88,6 +88,52 @@ where
             want.get(pos..(pos + 6).min(want.len()))
         ));
     }
+    // the same array stored at an address that is 1 modulo 8 (a field behind a tag byte): the output cannot depend on where the bytes live
+    {
+        #[repr(C, align(8))]
+        struct Off<M: ArrayLength> {
+            tag: u8,
+            arr: GenericArray<u8, M>,
+        }
+        let off: Off<N> = Off { tag: 0xEE, arr: arr.clone() };
+        let got2 = match (case.precision, case.upper) {
+            (Some(p), false) => format!("{:.*x}", p, off.arr),
+            (Some(p), true) => format!("{:.*X}", p, off.arr),
+            (None, false) => format!("{:x}", off.arr),
+            (None, true) => format!("{:X}", off.arr),
+        };
+        if got2 != want || off.tag != 0xEE {
+            return Err(format!("N = {n}, precision {:?}: an array stored at an address that is 1 modulo 8 prints {} characters ({:?}...), expected {} ({:?}...)", case.precision, got2.len(), &got2[..got2.len().min(12)], want.len(), &want[..want.len().min(12)]));
+        }
+    }
+    // a sink that refuses what does not fit (and would accept something shorter later): whatever reached it is a prefix of the digits
+    if !want.is_empty() {
+        struct Cap {
+            buf: String,
+            cap: usize,
+        }
+        impl std::fmt::Write for Cap {
+            fn write_str(&mut self, s: &str) -> std::fmt::Result {
+                if self.buf.len() + s.len() > self.cap {
+                    return Err(std::fmt::Error);
+                }
+                self.buf.push_str(s);
+                Ok(())
+            }
+        }
+        for cap in [want.len() / 3, 100usize.min(want.len().saturating_sub(1)), want.len() * 2 / 3 + 1] {
+            let mut sink = Cap { buf: String::new(), cap };
+            let r = match (case.precision, case.upper) {
+                (Some(p), false) => write!(sink, "{:.*x}", p, arr),
+                (Some(p), true) => write!(sink, "{:.*X}", p, arr),
+                (None, false) => write!(sink, "{:x}", arr),
+                (None, true) => write!(sink, "{:X}", arr),
+            };
+            if !want.starts_with(&sink.buf) || (r.is_ok() && sink.buf != want) {
+                return Err(format!("N = {n}, precision {:?}: a sink of capacity {cap} that refuses what does not fit ended up holding {} characters that are not a prefix of the digits (result {:?})", case.precision, sink.buf.len(), r.is_ok()));
+            }
+        }
+    }
     // "...and nothing else": a width, fill or alignment in the format spec adds nothing (all three internal strategies agree)
     let w = want.len() + 3;
     if w > 65535 {
@@ -243,7 +289,7 @@ pub fn main() {
             prop: PROP,
             level: "exploration",
             rule: "case = (N in 66 lengths from 0 to 65536 (0..=18, 23, 24, 31..34, 48, 63..65, 100, 127..129, 200, 255..257, 300, 400, 511..513, 600, 768, 1000, 1023..1025, 1500, 2000, 2047..2049, 2500, 3000, 4095..4097, 5000, 6000, 8191..8193, 10000, 16384, 65536), byte pattern, precision, {:x} or {:X}); grid: every precision 0..=2N+2 (and none) for N <= 33, boundary precisions beyond (0..3, 7, every power-of-two digit count from 32 with its neighbours, odd multiples of 2048, 2N-3..2N+1, and 65535 - the largest precision core::fmt accepts), with ramp (all 256 byte values), per-chunk-distinct, nibble-asymmetric and seeded random data; plus proptest-random (data, precision) cases. The check is built and run twice: default features and faster-hex. \
-                   Every case is also formatted with a width (plain, fill + right-aligned, fill + centred) three characters wider than the output: the digits and nothing else must come out. Oracle: reference string built per byte with {:02x} / {:02X}, cut to min(p, 2N) characters. Width, fill and the # flag are not asserted. \
+                   Every case is also formatted from storage at an address that is 1 modulo 8, into a fixed-capacity sink that refuses what does not fit (what reached it must be a prefix of the digits), and with a width (plain, fill + right-aligned, fill + centred) three characters wider than the output: the digits and nothing else must come out. Oracle: reference string built per byte with {:02x} / {:02X}, cut to min(p, 2N) characters. Width, fill and the # flag are not asserted. \
                    non-trivial = N > 0 and (odd precision below 2N, or precision across a 2048-digit chunk boundary, or N at a strategy threshold 15/16/17/1023/1024/1025); distinct = distinct case tuples",
             exhaustive: false,
             assumptions: vec!["faster-hex selects its SIMD path by run-time CPU detection; the paths this CPU does not take are not exercised".into()],
